@@ -7,9 +7,11 @@ import (
 	"fmt"
 	"math/rand/v2"
 	"net/url"
+	"runtime"
 	"slices"
 	"sort"
 	"strings"
+	"sync"
 	"testing"
 	"testing/synctest"
 	"time"
@@ -212,6 +214,270 @@ func TestC04(t *testing.T) {
 		}
 		synctest.Test(t, func(t *testing.T) { c05Overlap(t, run, k, run.Rand(len(scs)+k)) })
 	}
+	// "every command order (and restart) that yields the same set": two commands that change the set
+	// (or that merely record it) run at the same time, both are acknowledged, and then the proxy is
+	// restarted from the state file it wrote. The set of services is the same whichever way the two
+	// overlapped, so routing - live and after the restart - must be what the statement selects for it.
+	base := len(scs) + run.N(12, 300)
+	for k := 0; k < run.N(24, 900); k++ {
+		sc := c04OvlGen(run.Rand(base+k), k)
+		if !run.Mine(base+k, sc) {
+			continue
+		}
+		synctest.Test(t, func(t *testing.T) { c04OvlRun(t, run, sc, run.Rand(base+k)) })
+	}
+}
+
+// ---- overlapping commands, then a restart ----
+
+type c04OvlOp struct {
+	Kind string `json:"kind"` // deploy-new | move | redeploy-same | remove-ghost | resume | rollout-stop
+	Svc  string `json:"svc"`
+}
+
+type c04OvlScenario struct {
+	Idx      int          `json:"idx"`
+	Kind     string       `json:"kind"`
+	Services []c04Service `json:"services"` // the final table
+	Ghosts   []c04Service `json:"ghosts"`   // deployed during the set-up, all removed again by the end
+	// Mode: "late-change-inside-holder-snapshot": the late command changes the table after the holder
+	// has listed the services for its snapshot and before that snapshot is on disk; "free": the two
+	// start at nearby instants with per-step scheduler delays in the snapshot code.
+	Mode   string   `json:"mode"`
+	Holder c04OvlOp `json:"holder"`
+	Late   c04OvlOp `json:"late"`
+}
+
+func c04OvlGen(rng *rand.Rand, idx int) c04OvlScenario {
+	sc := c04OvlScenario{Idx: idx, Kind: "overlapping-commands-then-restart", Services: c04Gen(rng, idx).Services}
+	for k := 0; k < 2; k++ {
+		g := c04Service{Name: fmt.Sprintf("ghost%d", k), Hosts: []string{pick(rng, []string{"a.com", "x.a.com", "y.a.com", "*.a.com", "com", "localhost", "b.com", "z.x.a.com", ""})}, Prefixes: []string{pick(rng, c04Prefixes)}}
+		g.RawPfx = g.Prefixes
+		ok := true
+		for _, o := range append(append([]c04Service{}, sc.Services...), sc.Ghosts...) {
+			if c04Conflicts(g, o) {
+				ok = false
+			}
+		}
+		if ok {
+			sc.Ghosts = append(sc.Ghosts, g)
+		}
+	}
+	if len(sc.Ghosts) == 0 {
+		// no service of the pool is ever bound to b.com
+		sc.Ghosts = append(sc.Ghosts, c04Service{Name: "ghost0", Hosts: []string{"b.com"}, Prefixes: []string{"/"}, RawPfx: []string{"/"}})
+	}
+	var late, holder []c04OvlOp
+	for _, s := range sc.Services {
+		late = append(late, c04OvlOp{"deploy-new", s.Name}, c04OvlOp{"move", s.Name})
+	}
+	for _, g := range sc.Ghosts {
+		late = append(late, c04OvlOp{"remove-ghost", g.Name}, c04OvlOp{"remove-ghost", g.Name})
+	}
+	sc.Late = pick(rng, late)
+	for _, s := range sc.Services {
+		if s.Name != sc.Late.Svc {
+			for _, k := range []string{"deploy-new", "move", "redeploy-same", "resume", "rollout-stop"} {
+				holder = append(holder, c04OvlOp{k, s.Name})
+			}
+		}
+	}
+	for _, g := range sc.Ghosts {
+		if g.Name != sc.Late.Svc {
+			holder = append(holder, c04OvlOp{"remove-ghost", g.Name}, c04OvlOp{"remove-ghost", g.Name})
+		}
+	}
+	sc.Holder = pick(rng, holder)
+	sc.Mode = pick(rng, []string{"late-change-inside-holder-snapshot", "late-change-inside-holder-snapshot", "free"})
+	return sc
+}
+
+func c04OvlRun(t *testing.T, run *Run, sc c04OvlScenario, rng *rand.Rand) {
+	run.Eval()
+	all := append(append([]c04Service{}, sc.Services...), sc.Ghosts...)
+	byName := map[string]c04Service{}
+	for _, s := range all {
+		byName[s.Name] = s
+	}
+	opOn := func(name string) string {
+		for _, op := range []c04OvlOp{sc.Holder, sc.Late} {
+			if op.Svc == name {
+				return op.Kind
+			}
+		}
+		return ""
+	}
+	w := NewWorld(t, WorldOpt{})
+	closed := false
+	closeW := func() {
+		if !closed {
+			closed = true
+			w.Close()
+		}
+	}
+	defer closeW()
+	fail := func(sig, format string, a ...any) {
+		run.Violate(sig, fmt.Sprintf(format, a...), sc, func() []string { return w.Trace(80) })
+	}
+	for _, s := range all {
+		w.AddTarget("svc-"+s.Name+":80", nil)
+	}
+	// set-up, one command after the other: everything except what the two overlapping commands do
+	for _, i := range rng.Perm(len(all)) {
+		s := all[i]
+		hosts, pfx := s.Hosts, s.RawPfx
+		switch opOn(s.Name) {
+		case "deploy-new":
+			continue
+		case "move":
+			hosts, pfx = []string{fmt.Sprintf("tmp%d.example", i)}, []string{pick(rng, c04Prefixes)}
+		}
+		if e := c04Deploy(w, s, hosts, pfx); e != "" {
+			fail("deploy-failed", "deploy of %s (hosts %v prefixes %v) failed: %s", s.Name, hosts, pfx, e)
+			return
+		}
+	}
+	for _, g := range sc.Ghosts {
+		if opOn(g.Name) == "" {
+			if c := w.Remove(g.Name); c.Err+c.Panic != "" {
+				fail("remove-failed", "remove of %s failed: %s", g.Name, c.Err+c.Panic)
+				return
+			}
+		}
+	}
+	// exec runs one of the two commands; it returns the failure that matters (commands that change
+	// the set must succeed: their bindings are free; resume / rollout-stop of a running service
+	// without a rollout may say so)
+	exec := func(op c04OvlOp) (failure, panicked string) {
+		switch op.Kind {
+		case "deploy-new", "move", "redeploy-same":
+			s := byName[op.Svc]
+			return c04Deploy(w, s, s.Hosts, s.RawPfx), ""
+		case "remove-ghost":
+			c := w.Remove(op.Svc)
+			return c.Err + c.Panic, ""
+		case "resume":
+			return "", w.Resume(op.Svc).Panic
+		}
+		return "", w.RolloutStop(op.Svc).Panic
+	}
+	var hFail, hPanic, lFail, lPanic string
+	var wg sync.WaitGroup
+	wg.Add(2)
+	placed := false
+	if sc.Mode == "free" {
+		spins := []int{rng.IntN(4) * 400, rng.IntN(4) * 400, rng.IntN(4) * 400, rng.IntN(4) * 400, 0}
+		w.mu.Lock()
+		w.PointSpin = map[string]func(int) int{}
+		for _, p := range []string{"snapshot.listed", "snapshot.created", "snapshot.written"} {
+			w.PointSpin[p] = func(n int) int { return spins[n%len(spins)] }
+		}
+		w.mu.Unlock()
+		dh, dl := time.Duration(rng.IntN(3))*(5*time.Millisecond+OffArrival), time.Duration(rng.IntN(3))*(5*time.Millisecond+OffArrival)
+		go func() { defer wg.Done(); time.Sleep(dh); hFail, hPanic = exec(sc.Holder) }()
+		go func() { defer wg.Done(); time.Sleep(dl); lFail, lPanic = exec(sc.Late) }()
+	} else {
+		// The holder stops where it has listed the services for its snapshot (it waits on a channel:
+		// virtual time goes on, the late command's targets can become healthy). When the late command
+		// is about to change the table (its targets are healthy / it is a remove), the holder goes on
+		// after a real-time delay - scheduler yields, because it is inside the snapshot lock where a
+		// virtual sleep would stop the clock for good - that lets the late command's in-memory step
+		// and its own attempt to save the state happen first.
+		reached, goOn := make(chan struct{}), make(chan struct{})
+		var onceR, onceG sync.Once
+		markReached := func() (first bool) { onceR.Do(func() { first = true; close(reached) }); return }
+		release := func(byLate bool) {
+			onceG.Do(func() {
+				if byLate {
+					placed = true
+				}
+				close(goOn)
+			})
+		}
+		w.mu.Lock()
+		w.OnHook = func(h HookRec) {
+			switch {
+			case h.Point == "snapshot.listed":
+				if markReached() {
+					<-goOn
+					for i := 0; i < 20000; i++ {
+						runtime.Gosched()
+					}
+				}
+			case h.Point == "deploy.healthy" && h.Name == sc.Late.Svc:
+				select {
+				case <-reached:
+					release(true)
+				default:
+				}
+			}
+		}
+		w.mu.Unlock()
+		go func() { defer wg.Done(); hFail, hPanic = exec(sc.Holder); markReached(); release(false) }()
+		go func() {
+			defer wg.Done()
+			<-reached
+			if sc.Late.Kind == "remove-ghost" {
+				release(true)
+			}
+			lFail, lPanic = exec(sc.Late)
+			release(false)
+		}()
+	}
+	wg.Wait()
+	w.ClearDelays()
+	w.mu.Lock()
+	w.OnHook = nil
+	w.mu.Unlock()
+	what := fmt.Sprintf("%s(%s) overlapping %s(%s)", sc.Holder.Kind, sc.Holder.Svc, sc.Late.Kind, sc.Late.Svc)
+	if hPanic+lPanic != "" {
+		fail("panic:overlapping-commands", "%s: %s %s", what, hPanic, lPanic)
+		return
+	}
+	if hFail+lFail != "" {
+		// whether a command whose bindings are free succeeds is C05's business
+		run.Inconclusive("C04 %s: a command failed: %q %q", what, hFail, lFail)
+		return
+	}
+	if placed {
+		run.Count("overlap_late_change_released_inside_holder_snapshot", 1)
+	}
+	judge := func(m map[string]string, sig, how string) bool {
+		keys := make([]string, 0, len(m))
+		for k := range m {
+			keys = append(keys, k)
+		}
+		sort.Strings(keys)
+		for _, k := range keys {
+			hp := strings.SplitN(k, " ", 2)
+			if want := refRoute(sc.Services, hp[0], hp[1]); m[k] != want {
+				fail(sig, "%s, both acknowledged; %s: Host %q path %q was answered by %q, the statement selects %q for the services now deployed", what, how, hp[0], hp[1], m[k], want)
+				return false
+			}
+		}
+		run.Count("probes", len(keys))
+		return true
+	}
+	if !judge(c04Matrix(w, "ov-"), "route-mismatch:after-overlapping-commands", "live") {
+		return
+	}
+	stateDir := w.CopyState()
+	closeW()
+	w2 := NewWorld(t, WorldOpt{StateDir: stateDir})
+	defer w2.Close()
+	for _, s := range all {
+		w2.AddTarget("svc-"+s.Name+":80", nil)
+	}
+	w = w2 // traces of failures from here on come from the restarted proxy
+	if err := w2.Router.RestoreLastSavedState(); err != nil {
+		fail("restore-failed", "%s, then RestoreLastSavedState: %v", what, err)
+		return
+	}
+	if !judge(c04Matrix(w2, "ovr-"), "route-mismatch:restored-after-overlapping-commands", "after a restart from the state file") {
+		return
+	}
+	run.Class(fmt.Sprintf("overlap-then-restart|%s|holder=%s|late=%s", sc.Mode, sc.Holder.Kind, sc.Late.Kind))
+	run.Count("overlap_then_restart_scenarios", 1)
 }
 
 func c04Matrix(w *World, tag string) map[string]string {
